@@ -125,6 +125,10 @@ def main(tier):
     jobs = [(built, ck.seed, tier, spec_for(i, ck.seed, tier)) for i in range(n)]
     for res in frame.pmap(work, jobs, chunksize=8):
         ck.absorb(res)
+    bigjobs = [(built, ck.seed, i, nst, st, lm) for i, (nst, st, lm) in enumerate(
+        [(3000, False, "absent"), (400, True, "disabled"), (900, False, "disabled")] + ([] if tier == "quick" else [(6000, False, "disabled"), (8000, True, "absent"), (150, False, "absent"), (1200, True, "absent")]))]
+    for res in frame.pmap(bigfile_work, bigjobs):
+        ck.absorb(res)
     if tier == "thorough":
         # overflow sanitizer: the ID-boundary workload again on a build with overflow-checks=on
         try:
@@ -151,6 +155,55 @@ def main(tier):
                       "insertion decomposition (DESIGN 4.1) identifies inserted IDs",
                       "the last ID of the range may be refused (next-ID value must itself fit in u32): only start+missing-1 > MAX is required to fail"]
     return ck.finish()
+
+
+def bigfile_work(job):
+    """The existing IDs live in one very large file (thousands of statements, ~1 MB); a second, small file needs IDs.
+    A size-dependent failure to take the large file into account would show as a collision."""
+    built, seed, i, nst, structured, lockmode = job
+    res = {"evaluations": 1, "nontrivial": [], "violations": [], "samples": [], "inconclusive": {}, "counters": {}}
+    rnd = core.rng_for("c01big", seed, i)
+    body = []
+    code_per_stmt = max(0, (2600000 // nst) - 80) if nst <= 1200 else 0     # "code-heavy" variant: megabytes of ordinary code
+    for k in range(1, nst + 1):
+        pad = "padding " * rnd.randrange(0, 30)
+        filler = []
+        while code_per_stmt and sum(len(x) for x in filler) < code_per_stmt:
+            filler.append("    let v_%d = compute(a_%d, b) + %d; if v_%d > limit { counter += 1; } // ordinary line\n" % (k, k, k % 97, k))
+        body.append("".join(filler))
+        if structured:
+            body.append('    info!(ref = %d, n = %d; "existing %d %s");\n' % (k, k, k, pad))
+        else:
+            body.append('    info!("[ref: %d] existing %d %s");\n' % (k, k, pad))
+    files = {"src/generated/big.rs": ("fn big() {\n" + "".join(body) + "}\n").encode(),
+             "src/small.rs": b'fn small() {\n    warn!("needs one");\n    error!(k = 1; "needs another");\n}\n'}
+    with core.Box(tag="c01b") as box:
+        cfg = core.make_config(structured=True if structured else None, use_cache=False if lockmode == "disabled" else None)
+        out = lab.run_tree(built, box, files, cfg, do_check=False, trace=False, timeout=600)
+    if out.edit.panicked() or out.edit.timed_out:
+        res["inconclusive"]["run-crashed-or-timeout (C17's business)"] = 1
+        return res
+    ids = []
+    for fo in out.files.values():
+        if fo.tokens is None:
+            res["inconclusive"]["prerequisite C03 failed (decomposition)"] = 1
+            return res
+        ids += [t["id"] for t in fo.tokens]
+    res["counters"]["bigfile_trees"] = 1
+    res["counters"]["inserted_ids_checked"] = len(ids)
+    res["nontrivial"].append("bigfile|%d|%s|%s" % (nst, structured, lockmode))
+    bad = None
+    if len(ids) != 2 and out.edit.rc == 0:
+        bad = ("wrong-number-inserted", {"ids": ids})
+    elif any(x <= nst for x in ids):
+        bad = ("collides-with-existing", {"ids": ids, "max_existing": nst})
+    elif len(set(ids)) != len(ids):
+        bad = ("duplicate-among-inserted", {"ids": ids})
+    if bad:
+        res["violations"].append({"signature": "C01.%s|bigfile|%s" % (bad[0], "structured" if structured else "unstructured"),
+                                  "detail": dict(bad[1], statements_in_big_file=nst, bytes=len(files["src/generated/big.rs"]), exit=out.edit.ended()),
+                                  "case": {"bigfile": [nst, structured, lockmode]}})
+    return res
 
 
 def corpus_work(job):
